@@ -2,9 +2,15 @@ package httpscenario
 
 import (
 	phttp "github.com/yandex/pandora/components/guns/http"
+	"go.uber.org/zap"
 )
 
 // Overlay-only export for the verification harnesses (not part of the repository).
 func ZvNewGun(cc phttp.ClientConstructor, cfg phttp.GunConfig) *ScenarioGun {
 	return newScenarioGun(cc, cfg, nil)
+}
+
+// ZvNewGunLog: the same with an answer log.
+func ZvNewGunLog(cc phttp.ClientConstructor, cfg phttp.GunConfig, answLog *zap.Logger) *ScenarioGun {
+	return newScenarioGun(cc, cfg, answLog)
 }
